@@ -301,6 +301,8 @@ class Heap(object):
             return self._arr(field, z3.ArraySort(z3.IntSort(), z3.RealSort()))
         if t == "list":
             return self._arr(field, z3.ArraySort(z3.IntSort(), Ref))
+        if t == "strlist":
+            return self._arr(field, z3.ArraySort(z3.IntSort(), Str))
         if t == "dict":
             return self._arr(field, z3.ArraySort(Str, Ref))
         return self._arr(field, _sort_for(t))
@@ -349,7 +351,7 @@ class Heap(object):
             return FrameV(RefV(term, None), field)
         if t == "opaque":
             return OpaqueV(RefV(term, None), field)
-        if t == "list":
+        if t in ("list", "strlist"):
             return ListV(RefV(term, None), field)
         if t == "dict":
             return DictV(RefV(term, None), field)
@@ -422,6 +424,8 @@ class Heap(object):
     def list_at(self, owner, field, i, cls="Node"):
         term = owner.term if isinstance(owner, RefV) else owner
         i = Num.lift(i)
+        if self.schema.type_of(field) == "strlist":
+            return StrV(z3.Select(self.arr(field).select(term), i.r))
         return RefV(z3.Select(self.arr(field).select(term), i.r), cls)
 
     def dict_has(self, owner, field, key):
